@@ -251,147 +251,100 @@ def partsLoop (maxParts marker : Nat) : List Nat → List Nat → PartsResult
 def listParts (parts : List Nat) (marker maxParts : Nat) : PartsResult :=
   partsLoop maxParts marker [] (sortBy (fun a b => decide (a ≤ b)) parts)
 
-/-! ## 6. The HTTP layer (every per-entry authorization answers "allowed") -/
+/-! ## 6. The HTTP layer (every per-entry authorization answers "allowed")
 
-/-- One HTTP page of ListObjects (v1: `NextMarker`, v2: `NextContinuationToken`). -/
-structure HttpObjPage where
-  objects : List Key
+`listAndFilterObjects`, `listAndFilterMultipartUploads` and `listAndFilterParts` are the same loop
+over different entry and marker types; it is written once. `σ` is the marker state of a request
+(objects: `startAfter *string`; uploads: `keyMarker, uploadIDMarker *string`; parts:
+`partNumberMarker *string`), `μ` a marker value taken from an entry. -/
+
+/-- What the loop uses of a storage result. -/
+structure StoreRes (α : Type) where
+  items : List α
   cps : List Key
   truncated : Bool
-  next : Option Key
+
+/-- One HTTP page. -/
+structure HttpPage (α μ : Type) where
+  items : List α
+  cps : List Key
+  truncated : Bool
+  /-- NextMarker / NextContinuationToken / NextKeyMarker+NextUploadIdMarker / NextPartNumberMarker -/
+  next : Option μ
   deriving DecidableEq, Repr
 
-/-- The `for objectIndex, object := range result.Objects` loop: `inl` = the page filled
-(collected, hasMore, lastScanned), `inr` = all objects taken (collected, lastScanned). -/
-def takeObjects (maxKeys : Nat) (tailMore : Bool) :
-    List Key → Option Key → List Key → Sum (List Key × Bool × Option Key) (List Key × Option Key)
+/-- The `for index, entry := range result.Entries` loop: `inl` = the page filled (collected,
+hasMore, lastScanned), `inr` = every entry taken (collected, lastScanned). -/
+def takeItems (mkOf : α → μ) (maxN : Nat) (tailMore : Bool) :
+    List α → Option μ → List α → Sum (List α × Bool × Option μ) (List α × Option μ)
   | col, last, [] => .inr (col, last)
   | col, _, o :: os =>
     let col' := col ++ [o]
-    if col'.length ≥ maxKeys then .inl (col', !os.isEmpty || tailMore, some o)
-    else takeObjects maxKeys tailMore col' (some o) os
+    if col'.length ≥ maxN then .inl (col', !os.isEmpty || tailMore, some (mkOf o))
+    else takeItems mkOf maxN tailMore col' (some (mkOf o)) os
 
 /-- The `for _, commonPrefix := range result.CommonPrefixes` loop (`seenPrefixes` = the collected ones). -/
-def takePrefixes : List Key → Option Key → List Key → List Key × Option Key
+def takePrefixes (cpMk : Key → μ) : List Key → Option μ → List Key → List Key × Option μ
   | col, last, [] => (col, last)
-  | col, _, c :: cs => takePrefixes (if col.contains c then col else col ++ [c]) (some c) cs
+  | col, _, c :: cs => takePrefixes cpMk (if col.contains c then col else col ++ [c]) (some (cpMk c)) cs
 
-/-- `Server.listAndFilterObjects`; `list startAfter` = `storage.ListObjects` with the request's
-prefix / delimiter / max-keys. `none` = the fuel ran out (the loop did not return). -/
-def listAndFilterObjects (list : Key → ObjResult) (maxKeys : Nat) :
-    Nat → List Key → List Key → Option Key → Option HttpObjPage
+/-- `Server.listAndFilter…`. `list st` = the storage call with the request's prefix / delimiter /
+page size and marker state `st`; `cur st` = the marker the state carries (`none` if a pointer is
+nil); `cont l` = the state that continues after marker `l`. `none` = the fuel ran out. -/
+def listAndFilter [BEq μ] (list : σ → StoreRes α) (mkOf : α → μ) (cpMk : Key → μ)
+    (cur : σ → Option μ) (cont : μ → σ) (maxN : Nat) :
+    Nat → List α → List Key → σ → Option (HttpPage α μ)
   | 0, _, _, _ => none
-  | fuel + 1, col, cps, startAfter =>
-    let res := list (startAfter.getD [])
-    match takeObjects maxKeys (!res.cps.isEmpty || res.truncated) col startAfter res.objects with
+  | fuel + 1, col, cps, st =>
+    let res := list st
+    match takeItems mkOf maxN (!res.cps.isEmpty || res.truncated) col (cur st) res.items with
     | .inl (col', hasMore, last) =>
-      some { objects := col', cps := cps, truncated := hasMore, next := if hasMore then last else none }
+      some { items := col', cps := cps, truncated := hasMore, next := if hasMore then last else none }
     | .inr (col', last) =>
-      let (cps', last') := takePrefixes cps last res.cps
-      if !res.truncated then some { objects := col', cps := cps', truncated := false, next := none }
-      else match last' with
-        | none => some { objects := col', cps := cps', truncated := false, next := none }
+      let pl := takePrefixes cpMk cps last res.cps
+      let done : HttpPage α μ := { items := col', cps := pl.1, truncated := false, next := none }
+      if !res.truncated then some done
+      else match pl.2 with
+        | none => some done
         | some l =>
-          if startAfter == some l then some { objects := col', cps := cps', truncated := false, next := none }
-          else listAndFilterObjects list maxKeys fuel col' cps' (some l)
+          if cur st == some l then some done
+          else listAndFilter list mkOf cpMk cur cont maxN fuel col' pl.1 (cont l)
 
-/-- Fuel for the server-side loops: every iteration that continues collects an object or ends the
+/-- Fuel for the server-side loops: every iteration that continues collects an entry or ends the
 request at the next one; `2 * rows + 4` is never reached (the driver reports it if it is). -/
 def loopFuel (n : Nat) : Nat := 2 * n + 4
 
-/-- `listObjectsHandler` / `listObjectsV2Handler`: `start` = `marker` (v1), `continuation-token`
-or else `start-after` (v2). -/
+abbrev HttpObjPage := HttpPage Key Key
+abbrev HttpUplPage := HttpPage Row (Key × Nat)
+abbrev HttpPartsPage := HttpPage Nat Nat
+
+/-- `listObjectsHandler` / `listObjectsV2Handler` + `listAndFilterObjects`: `start` = `marker`
+(v1), `continuation-token` or else `start-after` (v2). -/
 def httpListObjects (f : PrefixFilter) (table : List Key) (pfx delim : Key) (maxKeys : Nat)
     (start : Option Key) : Option HttpObjPage :=
-  listAndFilterObjects (fun sa => listObjects f table pfx delim sa maxKeys) maxKeys
-    (loopFuel table.length) [] [] start
+  listAndFilter
+    (fun sa => let r := listObjects f table pfx delim (sa.getD []) maxKeys; ⟨r.objects, r.cps, r.truncated⟩)
+    id id id some maxKeys (loopFuel table.length) [] [] start
 
-/-- One HTTP page of ListMultipartUploads. -/
-structure HttpUplPage where
-  uploads : List Row
-  cps : List Key
-  truncated : Bool
-  next : Option (Key × Nat)     -- NextKeyMarker, NextUploadIdMarker (0 = "")
-  deriving DecidableEq, Repr
-
-def takeUploads (maxUploads : Nat) (tailMore : Bool) :
-    List Row → Option (Key × Nat) → List Row →
-      Sum (List Row × Bool × Option (Key × Nat)) (List Row × Option (Key × Nat))
-  | col, last, [] => .inr (col, last)
-  | col, _, u :: us =>
-    let col' := col ++ [u]
-    if col'.length ≥ maxUploads then .inl (col', !us.isEmpty || tailMore, some (u.key, u.sub))
-    else takeUploads maxUploads tailMore col' (some (u.key, u.sub)) us
-
-def takeUploadPrefixes : List Key → Option (Key × Nat) → List Key → List Key × Option (Key × Nat)
-  | col, last, [] => (col, last)
-  | col, _, c :: cs => takeUploadPrefixes (if col.contains c then col else col ++ [c]) (some (c, 0)) cs
-
-/-- `Server.listAndFilterMultipartUploads`. The key marker and the upload-id marker are separate
-optional values in the code; `mk`/`mu` model them (`mu = none`: no upload-id marker). -/
-def listAndFilterUploads (list : Key → Nat → UplResult) (maxUploads : Nat) :
-    Nat → List Row → List Key → Option Key → Option Nat → Option HttpUplPage
-  | 0, _, _, _, _ => none
-  | fuel + 1, col, cps, mk, mu =>
-    let res := list (mk.getD []) (mu.getD 0)
-    let last0 : Option (Key × Nat) := match mk, mu with
-      | some k, some u => some (k, u)
-      | _, _ => none
-    -- lastKeyMarker / lastUploadIDMarker start as the request's markers; they are only compared
-    -- when both are set, which `last0` captures; a lone key marker is kept in `mk`
-    match takeUploads maxUploads (!res.cps.isEmpty || res.truncated) col last0 res.uploads with
-    | .inl (col', hasMore, last) =>
-      some { uploads := col', cps := cps, truncated := hasMore, next := if hasMore then last else none }
-    | .inr (col', last) =>
-      let (cps', last') := takeUploadPrefixes cps last res.cps
-      let done : HttpUplPage := { uploads := col', cps := cps', truncated := false, next := none }
-      if !res.truncated then some done
-      else match last' with
-        | none => some done     -- lastKeyMarker == nil || lastUploadIDMarker == nil
-        | some (lk, lu) =>
-          if mk == some lk && mu == some lu then some done
-          else listAndFilterUploads list maxUploads fuel col' cps' (some lk) (some lu)
-
+/-- `listMultipartUploadsHandler` + `listAndFilterMultipartUploads`. The key marker and the
+upload-id marker are separate optional values; the loop's marker comparisons need both. -/
 def httpListUploads (f : PrefixFilter) (table : List Row) (pfx delim : Key) (maxUploads : Nat)
     (mk : Option Key) (mu : Option Nat) : Option HttpUplPage :=
-  listAndFilterUploads (fun k u => listMultipartUploads f table pfx delim k u maxUploads) maxUploads
-    (loopFuel table.length) [] [] mk mu
+  listAndFilter
+    (fun (st : Option Key × Option Nat) =>
+      let r := listMultipartUploads f table pfx delim (st.1.getD []) (st.2.getD 0) maxUploads
+      ⟨r.uploads, r.cps, r.truncated⟩)
+    (fun u => (u.key, u.sub)) (fun c => (c, 0))
+    (fun st => match st with
+      | (some k, some u) => some (k, u)
+      | _ => none)
+    (fun l => (some l.1, some l.2)) maxUploads (loopFuel table.length) [] [] (mk, mu)
 
-/-- One HTTP page of ListParts. -/
-structure HttpPartsPage where
-  parts : List Nat
-  truncated : Bool
-  next : Option Nat
-  deriving DecidableEq, Repr
-
-def takeParts (maxParts : Nat) (tailMore : Bool) :
-    List Nat → Option Nat → List Nat → Sum (List Nat × Bool × Option Nat) (List Nat × Option Nat)
-  | col, last, [] => .inr (col, last)
-  | col, _, p :: ps =>
-    let col' := col ++ [p]
-    if col'.length ≥ maxParts then .inl (col', !ps.isEmpty || tailMore, some p)
-    else takeParts maxParts tailMore col' (some p) ps
-
-/-- `Server.listAndFilterParts`; `list marker` = `storage.ListParts`. -/
-def listAndFilterParts (list : Nat → PartsResult) (maxParts : Nat) :
-    Nat → List Nat → Option Nat → Option HttpPartsPage
-  | 0, _, _ => none
-  | fuel + 1, col, marker =>
-    let res := list (marker.getD 0)
-    match takeParts maxParts res.truncated col marker res.parts with
-    | .inl (col', hasMore, last) =>
-      some { parts := col', truncated := hasMore, next := if hasMore then last else none }
-    | .inr (col', last) =>
-      let done : HttpPartsPage := { parts := col', truncated := false, next := none }
-      if !res.truncated then some done
-      else match last with
-        | none => some done
-        | some l =>
-          if marker == some l then some done
-          else listAndFilterParts list maxParts fuel col' (some l)
-
+/-- `listPartsHandler` + `listAndFilterParts`. -/
 def httpListParts (parts : List Nat) (maxParts : Nat) (marker : Option Nat) : Option HttpPartsPage :=
-  listAndFilterParts (fun m => listParts parts m maxParts) maxParts (loopFuel parts.length) [] marker
+  listAndFilter
+    (fun m => let r := listParts parts (m.getD 0) maxParts; ⟨r.parts, [], r.truncated⟩)
+    id (fun _ => 0) id some maxParts (loopFuel parts.length) [] [] marker
 
 /-! ## 7. The S3 client: follow the continuation markers until `IsTruncated` is false -/
 
